@@ -78,7 +78,7 @@ impl<SystemType : System> History<SystemType> {
 //@ props C11
 //@ ret res
 //@ param Tracked(w): Tracked<&mut World>
-//@ addarg * /system\.(create_file|rename)|file\.write_all/ Tracked(w)
+//@ addarg * /system\.(create_file|rename|is_file|open)|file\.write_all/ Tracked(w)
 //@ rewrite 1 /format!\("\{\}\/\{\}", self\.path, rule_ticket\)/ => fmt_slash(&self.path, &rule_ticket.human_readable())
 //@ rewrite * /format!\("\{\}\.tmp", rule_history_file_path\)/ => fmt_tmp_string(&rule_history_file_path)
 //@ rewrite 1 /bincode::serialize\(&rule_history\)/ => bincode_serialize_h(&rule_history)
@@ -100,7 +100,7 @@ impl<SystemType : System> History<SystemType> {
 //@ props C11
 //@ ret res
 //@ param Tracked(w): Tracked<&mut World>
-//@ addarg 1 /system\.open/ Tracked(w)
+//@ addarg * /system\.(create_file|rename|is_file|open)/ Tracked(w)
 //@ rewrite 1 /format!\("\{\}\/\{\}", self\.path, rule_ticket\)/ => fmt_slash(&self.path, &rule_ticket.human_readable())
 //@ rewrite 1 /bincode::deserialize\(&content\)/ => bincode_deserialize_h(&content)
 //@ retype 1 /let mut content = Vec::new\(\);/ => let mut content : Vec<u8> = Vec::new();
@@ -112,7 +112,7 @@ impl<SystemType : System> History<SystemType> {
 //@ props C11
 //@ ret res
 //@ param Tracked(w): Tracked<&mut World>
-//@ addarg * /system\.(create_file|rename)|file\.write_all/ Tracked(w)
+//@ addarg * /system\.(create_file|rename|is_file|open)|file\.write_all/ Tracked(w)
 //@ rewrite * /format!\("\{\}\.tmp", file_path\)/ => fmt_tmp_str(file_path)
 //@ rewrite 1 /format!\("\{\}", error\)/ => io_error_string(&error)
 //@ spec
@@ -153,7 +153,7 @@ impl<SystemType : System> CurrentFileStates<SystemType> {
 //@ props C11
 //@ ret res
 //@ param Tracked(w): Tracked<&mut World>
-//@ addarg 1 /system\.open/ Tracked(w)
+//@ addarg * /system\.(create_file|rename|is_file|open)/ Tracked(w)
 //@ rewrite 1 /bincode::deserialize\(&content\)/ => bincode_deserialize_c(&content)
 //@ retype 1 /let mut content = Vec::new\(\);/ => let mut content : Vec<u8> = Vec::new();
 //@ spec
